@@ -77,9 +77,46 @@ type answers struct {
 	single         []bool
 	zip, hash, any bool
 	err            string
+	hung, skipped  bool // hung: no answer within hangLimit; skipped: not run because three earlier queries hung
 }
 
-func queryAll(f *gcs.Filter, key [16]byte, qs [][]byte, singles bool) (a answers) {
+// queryFailed reports a hung or failed query under the given key; true when the answers must not be used.
+func queryFailed(a answers, key, what string, replay func() map[string]interface{}) bool {
+	switch {
+	case a.skipped:
+		return true
+	case a.hung:
+		rep.Violate("C13:query:hang", "a query did not return (Match / ZipMatchAny / HashMatchAny / MatchAny are loops over N and the query list)", replay())
+		return true
+	case a.err != "":
+		rep.Violate(key, what, replay())
+		return true
+	}
+	return false
+}
+
+// queryAll runs the query forms under a watchdog: a query that does not come back (a cursor that wraps and never
+// reaches its bound) is reported with its input instead of hanging the run; the stuck goroutine is abandoned.
+var hangs int
+
+const hangLimit = 25 * time.Second
+
+func queryAll(f *gcs.Filter, key [16]byte, qs [][]byte, singles bool) answers {
+	if hangs >= 3 {
+		return answers{single: make([]bool, len(qs)), skipped: true, err: "not run: three earlier queries did not return"}
+	}
+	done := make(chan answers, 1)
+	go func() { done <- queryAllDirect(f, key, qs, singles) }()
+	select {
+	case a := <-done:
+		return a
+	case <-time.After(hangLimit):
+		hangs++
+		return answers{single: make([]bool, len(qs)), hung: true, err: fmt.Sprintf("no answer after %v (Match / ZipMatchAny / HashMatchAny / MatchAny on %d items)", hangLimit, len(qs))}
+	}
+}
+
+func queryAllDirect(f *gcs.Filter, key [16]byte, qs [][]byte, singles bool) (a answers) {
 	p, msg := vh.Catch(func() {
 		var err error
 		if singles {
@@ -214,6 +251,12 @@ func checkBuilt(s spec, queryLists [][][]byte, corr bool, family string) *gcs.Fi
 		d := s.Data[i]
 		a := queryAll(f, s.Key, [][]byte{d}, true)
 		rep.Count("member", fmt.Sprintf("m%x/%d/%d/%x", d, s.P, s.M, s.Key[:2]), true)
+		if a.hung || a.skipped {
+			queryFailed(a, "", "", func() map[string]interface{} {
+				return s.replay(map[string]interface{}{"queries": []string{hex.EncodeToString(d)}, "error": a.err})
+			})
+			continue
+		}
 		if a.err != "" || !a.single[0] || !a.zip || !a.hash || !a.any {
 			extra := map[string]interface{}{"member": hex.EncodeToString(d), "member_index_in_set": i, "Match": a.single, "ZipMatchAny": a.zip, "HashMatchAny": a.hash, "MatchAny": a.any, "error": a.err, "filter_bytes": len(fb)}
 			if rk, ok := rankOf[i]; ok {
@@ -225,7 +268,9 @@ func checkBuilt(s spec, queryLists [][][]byte, corr bool, family string) *gcs.Fi
 	// --- empty query matches nothing
 	a0 := queryAll(f, s.Key, nil, false)
 	rep.Count("emptyquery", "", false)
-	if a0.err != "" || a0.zip || a0.hash || a0.any {
+	if a0.hung || a0.skipped {
+		queryFailed(a0, "", "", func() map[string]interface{} { return s.replay(map[string]interface{}{"queries": []string{}, "error": a0.err}) })
+	} else if a0.err != "" || a0.zip || a0.hash || a0.any {
 		rep.Violate("C13:empty:query", "an empty query matched", s.replay(map[string]interface{}{"ZipMatchAny": a0.zip, "HashMatchAny": a0.hash, "MatchAny": a0.any, "error": a0.err}))
 	}
 	// --- query lists: item-by-item vs reference; any-of forms vs "some item matches"
@@ -234,8 +279,9 @@ func checkBuilt(s spec, queryLists [][][]byte, corr bool, family string) *gcs.Fi
 		a := queryAll(f, s.Key, qs, singles)
 		rep.Count("query:"+family, fmt.Sprintf("q%d/%d/%d/%x/%d/%d", s.P, s.M, n, s.Key[:4], li, len(qs)), n > 0 && len(qs) > 0)
 		rep.Histogram[sizeClass(len(qs), n)]++
-		if a.err != "" {
-			rep.Violate("C13:query:error", "a query failed or panicked", s.replay(map[string]interface{}{"queries": trimQ(qs), "error": a.err}))
+		if queryFailed(a, "C13:query:error", "a query failed or panicked", func() map[string]interface{} {
+			return s.replay(map[string]interface{}{"queries": trimQ(qs), "error": a.err})
+		}) {
 			continue
 		}
 		want := false
@@ -257,8 +303,18 @@ func checkBuilt(s spec, queryLists [][][]byte, corr bool, family string) *gcs.Fi
 		if a.zip != want || a.hash != want || a.any != want {
 			rep.Violate("C13:strategies:agree", "an any-of form differs from 'some queried item matches individually'",
 				s.replay(map[string]interface{}{"queries": trimQ(qs), "some_item_matches": want, "ZipMatchAny": a.zip, "HashMatchAny": a.hash, "MatchAny": a.any}))
-			if len(qs) > 1 { // minimise: find a single responsible item
-				for _, q := range qs {
+			if len(qs) > 1 { // minimise: find a single responsible item (long lists: the matching items first, then a bounded prefix)
+				cand := qs
+				if len(qs) > 200 {
+					cand = nil
+					for _, q := range qs {
+						if refSet[gref.Value(s.Key, F, q)] && len(cand) < 40 {
+							cand = append(cand, q)
+						}
+					}
+					cand = append(cand, qs[:100]...)
+				}
+				for _, q := range cand {
 					b := queryAll(f, s.Key, [][]byte{q}, true)
 					if b.err == "" && (b.zip != b.single[0] || b.hash != b.single[0] || b.any != b.single[0]) {
 						rep.Violate("C13:strategies:agree", "an any-of form differs from 'some queried item matches individually'",
@@ -522,7 +578,7 @@ func familyBig(rng *vh.RNG) {
 	}
 	// Round 3: size classes of N and of the byte length.  N in [2^16, 2^17) (a 16-bit decode counter wraps; bit 16 of N
 	// set) at the default parameters in EVERY tier; thorough/search: the same binade at P = 32 (remainders of a full
-	// word; 420 kB, above 400000 bytes), N in [2^17, 2^18) and a filter above 1 MiB.  A separate stream so that the
+	// word; 420 kB, above 400000 bytes), N in [2^17, 2^18), exactly 2^16 and 2^17, and a filter above 1 MiB.  A separate stream so that the
 	// older configurations keep their inputs.
 	r2 := rng.Fork("big-r3")
 	list2 := []cfgT{{70000, 19, 784931}}
@@ -783,6 +839,9 @@ func familyHostile(rng *vh.RNG) {
 		}
 		t0 := time.Now()
 		a := queryAll(f, key, qs, true)
+		if a.skipped {
+			continue
+		}
 		rep.Count("hostile", fmt.Sprintf("h%d/%x", n, data), len(data) > 0)
 		if a.err != "" {
 			rep.Violate("C13:hostile:panic", "a query on a deserialised filter failed or panicked", map[string]interface{}{"N": n, "P": p, "M": m, "bytes": vh.Hex(data), "queries": hexItems(qs), "error": a.err})
@@ -1165,7 +1224,27 @@ func familyShared(rng *vh.RNG) {
 			for fi, l := range live {
 				for k := 0; k < 3; k++ {
 					rep.Count("shared:sequential", "", false)
-					if what, ex := l.probe(op, pass*3+k+8*(k%2)); what != "" {
+					if hangs >= 3 {
+						continue
+					}
+					type pr struct {
+						what string
+						ex   map[string]interface{}
+					}
+					ch := make(chan pr, 1)
+					go func() { w, e := l.probe(op, pass*3+k+8*(k%2)); ch <- pr{w, e} }()
+					var what string
+					var ex map[string]interface{}
+					select {
+					case x := <-ch:
+						what, ex = x.what, x.ex
+					case <-time.After(hangLimit):
+						hangs++
+						rp := l.describe()
+						rp["operation"] = opNames[op%6]
+						rep.Violate("C13:query:hang", "a query did not return (Match / ZipMatchAny / HashMatchAny / MatchAny are loops over N and the query list)", rp)
+					}
+					if what != "" {
 						violate("C13:shared:sequential", fmt.Sprintf("alternating calls from one goroutine, pass %d", pass), fi, op, what, ex)
 					}
 				}
@@ -1173,7 +1252,10 @@ func familyShared(rng *vh.RNG) {
 		}
 	}
 	// (2) the same from several goroutines at once, each walking the filters in its own order
-	workers, iters := 8, cfg.Scale(60, 250)
+	if hangs >= 3 {
+		return
+	}
+	workers, iters := 8, cfg.Scale(80, 120)
 	var mu sync.Mutex
 	var wg sync.WaitGroup
 	stop := false
@@ -1211,7 +1293,17 @@ func familyShared(rng *vh.RNG) {
 			mu.Unlock()
 		}(w)
 	}
-	wg.Wait()
+	finished := make(chan struct{})
+	go func() { wg.Wait(); close(finished) }()
+	select {
+	case <-finished:
+	case <-time.After(40 * hangLimit):
+		hangs = 3
+		mu.Lock()
+		rep.Violate("C13:query:hang", "queries from several goroutines did not all return", map[string]interface{}{"sequence": "stateful: re-run the family with the recorded seed", "filters_alive": alive, "goroutines": workers})
+		mu.Unlock()
+		return
+	}
 	for i := 0; i < total; i++ {
 		rep.Count("shared:concurrent", "", false)
 	}
@@ -1253,6 +1345,9 @@ func familyReuse(rng *vh.RNG) {
 		step := func(what string) bool {
 			history = append(history, what+": "+strings.Join(hexItems(bufs), ","))
 			a := queryAll(f, s.Key, bufs, true)
+			if a.skipped {
+				return false
+			}
 			rep.Count("reuse", fmt.Sprintf("u%d/%d/%s", i, len(history), what), true)
 			if a.err != "" {
 				rep.Violate("C13:query:error", "a query failed or panicked", s.replay(map[string]interface{}{"sequence_same_buffers": history, "error": a.err}))
@@ -1380,6 +1475,9 @@ func familyTruncated(rng *vh.RNG) {
 					qs = items[:1+r.Intn(len(items))]
 				}
 				a := queryAll(f, key, qs, true)
+				if a.skipped {
+					continue
+				}
 				rep.Count("truncated", fmt.Sprintf("t%d/%d/%x", p, claimed, data), cut > 0 && cut < len(fb))
 				if a.err != "" {
 					rep.Violate("C13:hostile:panic", "a query on a deserialised filter failed or panicked", map[string]interface{}{"N": claimed, "P": p, "M": m, "bytes": vh.Hex(data), "queries": hexItems(qs), "error": a.err})
@@ -1638,7 +1736,7 @@ func familyProd(rng *vh.RNG) {
 	if cfg.Thorough() || cfg.Search {
 		tier = "thorough"
 	}
-	outb, err := run(900*time.Second, bin, strconv.FormatUint(cfg.Seed, 10), tier)
+	outb, err := run(400*time.Second, bin, strconv.FormatUint(cfg.Seed, 10), tier)
 	var po struct {
 		WithVerifTag bool           `json:"with_verif_tag"`
 		Executions   int            `json:"executions"`
